@@ -1,3 +1,286 @@
-/- Property theorems for C18 (stub: not built yet). -/
+/-
+C18  Time-series files round-trip and all file formats parse to the same panel.
+Property theorems about SkVerif/Model/TsFile.lean (writer, .ts/.arff/.tsv parsers, `_load_dataset`).
+Only theorems + non-vacuity examples here; lemmas live in Lemmas/Ts*.lean.
+
+Text is `Str = List Char`.  A series is the list of tokens pandas printed for it (number formatting is
+data); `tokVal t` is the number the token denotes (`float(t)`), labels come back as `lower (strip l)`.
+
+FULL STATEMENT (property text): for every panel, every label list *or no labels*, every writer option,
+`parseTs (write o panel vals)` returns the panel.  It does NOT hold for the code as it stands:
+(1) without class labels the writer emits `@class_label false`, a line the parser does not recognise as
+the class-label tag, so the file is rejected (`roundtrip_without_labels_is_rejected`, for every panel);
+(2) a class value containing `?` is rewritten by the parser's missing-value substitution
+(`label_with_question_mark_is_rewritten`).  Proved instead: the labelled round trip for labels without
+`?` (`parse_write_roundtrip_partial`), and the label-free round trip for the writer with the one header
+line corrected (`parse_writeFixed_roundtrip_nolabels`).
+-/
+import SkVerif.Lemmas.TsRoundTrip
+import SkVerif.Lemmas.TsReject
 namespace SkVerif.C18
+open SkVerif.TsFile SkVerif.TsFile.Lem
+
+/-! ### round trip -/
+
+/-- **parse ∘ write = id (labelled panels).**  For every univariate panel of printed number tokens, every
+list of class values (one per instance, free of `:`, `?`, newline), every writer option (problem name,
+comment block, `@equalLength`, `@seriesLength`, class label set): loading the written file returns one
+dimension holding the instances in order, each series with its values in order (the numbers the printed
+tokens denote), and the class values lower-cased and stripped. -/
+theorem parse_write_roundtrip_partial (o : WOpts) (panel : List (List Str)) (vals : List Str)
+    (ho : ValidOpts o) (hcl : o.classLabel ≠ []) (hJ : strip (join [' '] o.classLabel) ≠ [])
+    (hne : panel ≠ []) (hlen : vals.length = panel.length)
+    (hp : ∀ s ∈ panel, ValidSeries s) (hl : ∀ l ∈ vals, ValidLabel l) :
+    (write o panel vals).bind parseTs
+      = .ok ⟨[panel.map (·.map tokVal)], some (vals.map (fun l => lower (strip l)))⟩ := by
+  have hw : write o panel vals = .ok (unlines (headerLines noLabelLine o ++ caseLines o.univariate panel vals)) := by
+    have h1 : ¬ (panel.length ≠ vals.length ∧ vals.length > 0) := by omega
+    simp only [write, writeWith, h1, ho.eqsl, if_false]
+  rw [hw, ho.uni]
+  simp only [Except.bind]
+  have hstep : step s3 (normLine (clLine noLabelLine o))
+      = .ok { s3 with classLabels := true, hasCL := true } := by
+    simp only [clLine, hcl, ne_eq, not_false_eq_true, if_true]
+    exact step_written_classLabel s3 _ hJ rfl
+  have hH := run_header noLabelLine o ho true true hstep
+  obtain ⟨st', hrun, hL⟩ := run_all_cases_two panel vals (hdrSt true true) hne hlen hp hl (fresh_hdrSt true)
+  have hnl : ∀ l ∈ headerLines noLabelLine o ++ caseLines true panel vals, '\n' ∉ l := by
+    intro l hm
+    rcases List.mem_append.mp hm with h | h
+    · exact header_no_nl noLabelLine o ho (by decide) l h
+    · exact caseLines_two_no_nl panel vals hp hl l h
+  have hrun' : run {} ((headerLines noLabelLine o ++ caseLines true panel vals).map normLine) = .ok st' := by
+    rw [List.map_append, run_append_ok _ hH, hrun]
+  rw [parseTs_unlines_ok _ st' hnl hrun']
+  simpa using finish_loaded _ st' true _ _ (written_length_ne_zero _ _ _) hL
+
+/-- **The known defect, for every panel.**  Written without class labels (`class_label=None`), a
+non-empty panel is never loaded back: the parser answers `TsFileParseException`. -/
+theorem roundtrip_without_labels_is_rejected (o : WOpts) (panel : List (List Str))
+    (ho : ValidOpts o) (hcl : o.classLabel = []) (hne : panel ≠ []) (hp : ∀ s ∈ panel, ValidSeries s) :
+    (write o panel []).bind parseTs = .error .parse := by
+  have hw : write o panel [] = .ok (unlines (headerLines noLabelLine o ++ caseLines o.univariate panel [])) := by
+    simp only [write, writeWith, ho.eqsl, if_false]
+    simp
+  rw [hw, ho.uni]
+  simp only [Except.bind]
+  have hstep : step s3 (normLine (clLine noLabelLine o))
+      = .ok { s3 with classLabels := false, hasCL := false } := by
+    simp only [clLine, hcl, ne_eq, not_true_eq_false, if_false]
+    exact step_skip s3 _ skip_noLabelLine rfl
+  have hH := run_header noLabelLine o ho false false hstep
+  have hnl : ∀ l ∈ headerLines noLabelLine o ++ caseLines true panel [], '\n' ∉ l := by
+    intro l hm
+    rcases List.mem_append.mp hm with h | h
+    · exact header_no_nl noLabelLine o ho (by decide) l h
+    · exact caseLines_two_no_nl panel [] hp (by simp) l h
+  apply parseTs_unlines_error _ _ hnl
+  rw [List.map_append, run_append_ok _ hH]
+  match panel, hne with
+  | r :: rs, _ =>
+    rw [caseLines_true_cons_nil, List.map_cons]
+    apply run_cons_error
+    have := written_line_is_data (hdrSt false false) r [] (hp r (by simp)).1 (hp r (by simp)).2 rfl
+    rw [List.append_nil] at this
+    rw [this]
+    exact dataLine_noCL _ _ rfl
+
+/-- the same at a concrete witness (one instance, the tokens pandas prints for `[1.5, -2.25]`) -/
+theorem roundtrip_without_labels_witness :
+    (write { problemName := "p".toList } [[" 1.50".toList, "-2.25".toList]] []).bind parseTs
+      = .error .parse := by rfl
+
+/-- **With the one header line corrected** (`@classLabel false`, file findings/C18-*.patch) the
+label-free round trip holds for every panel and option. -/
+theorem parse_writeFixed_roundtrip_nolabels (o : WOpts) (panel : List (List Str))
+    (ho : ValidOpts o) (hcl : o.classLabel = []) (hne : panel ≠ []) (hp : ∀ s ∈ panel, ValidSeries s) :
+    (writeFixed o panel []).bind parseTs = .ok ⟨[panel.map (·.map tokVal)], none⟩ := by
+  have hw : writeFixed o panel [] = .ok (unlines (headerLines noLabelLineFixed o ++ caseLines o.univariate panel [])) := by
+    simp only [writeFixed, writeWith, ho.eqsl, if_false]
+    simp
+  rw [hw, ho.uni]
+  simp only [Except.bind]
+  have hstep : step s3 (normLine (clLine noLabelLineFixed o))
+      = .ok { s3 with classLabels := false, hasCL := true } := by
+    simp only [clLine, hcl, ne_eq, not_true_eq_false, if_false]
+    exact step_written_classLabel_false s3 rfl
+  have hH := run_header noLabelLineFixed o ho true false hstep
+  obtain ⟨st', hrun, hL⟩ := run_all_cases_one panel (hdrSt true false) hne hp (fresh_hdrSt false)
+  have hnl : ∀ l ∈ headerLines noLabelLineFixed o ++ caseLines true panel [], '\n' ∉ l := by
+    intro l hm
+    rcases List.mem_append.mp hm with h | h
+    · exact header_no_nl noLabelLineFixed o ho (by decide) l h
+    · exact caseLines_two_no_nl panel [] hp (by simp) l h
+  have hrun' : run {} ((headerLines noLabelLineFixed o ++ caseLines true panel []).map normLine) = .ok st' := by
+    rw [List.map_append, run_append_ok _ hH, hrun]
+  rw [parseTs_unlines_ok _ st' hnl hrun']
+  simpa using finish_loaded _ st' false _ _ (written_length_ne_zero _ _ _) hL
+
+/-- **Second defect, at a witness**: the class value `what?` is loaded as `whatNaN` (the parser applies
+`replace("?", "NaN")` to the whole case line). -/
+theorem label_with_question_mark_is_rewritten :
+    (match (write { problemName := "p".toList, classLabel := ["what?".toList] } [["1".toList]] ["what?".toList]).bind parseTs with
+     | .ok p => p.labels == some ["whatNaN".toList]
+     | .error _ => false) = true := by rfl
+
+/-- what the round trip says about shape: as many instances as written, each with as many values -/
+theorem roundtrip_preserves_instances_and_lengths (o : WOpts) (panel : List (List Str)) (vals : List Str)
+    (ho : ValidOpts o) (hcl : o.classLabel ≠ []) (hJ : strip (join [' '] o.classLabel) ≠ [])
+    (hne : panel ≠ []) (hlen : vals.length = panel.length)
+    (hp : ∀ s ∈ panel, ValidSeries s) (hl : ∀ l ∈ vals, ValidLabel l) :
+    ∃ loaded labels, (write o panel vals).bind parseTs = .ok ⟨[loaded], some labels⟩ ∧
+      loaded.length = panel.length ∧ loaded.map List.length = panel.map List.length ∧
+      labels.length = panel.length := by
+  refine ⟨_, _, parse_write_roundtrip_partial o panel vals ho hcl hJ hne hlen hp hl, ?_, ?_, ?_⟩
+  · simp
+  · simp [List.map_map, Function.comp_def]
+  · simp [hlen]
+
+/-! ### rejection of malformed files -/
+
+/-- an empty file is rejected -/
+theorem parser_rejects_empty_file : parseTs [] = .error .parse := by rfl
+
+/-- A file in which no line (after `strip().lower()`) starts with `@classlabel` is never loaded, whatever
+else it contains.  (The writer's label-free output is such a file.) -/
+theorem parser_rejects_missing_classlabel_tag (text : Str)
+    (h : ∀ l ∈ (lines text).map normLine, startsWith kwClassLabel l = false) :
+    ∃ e, parseTs text = .error e :=
+  parseTs_missing (·.hasCL) kwClassLabel rfl (fun st st' l hs => (step_flags st st' l hs).2.2.2.1)
+    (fun _ hf => hf.2.2.2.1) text h
+
+theorem parser_rejects_missing_problemname_tag (text : Str)
+    (h : ∀ l ∈ (lines text).map normLine, startsWith kwProblemName l = false) :
+    ∃ e, parseTs text = .error e :=
+  parseTs_missing (·.hasPN) kwProblemName rfl (fun st st' l hs => (step_flags st st' l hs).1)
+    (fun _ hf => hf.1) text h
+
+theorem parser_rejects_missing_timestamps_tag (text : Str)
+    (h : ∀ l ∈ (lines text).map normLine, startsWith kwTimestamps l = false) :
+    ∃ e, parseTs text = .error e :=
+  parseTs_missing (·.hasTS) kwTimestamps rfl (fun st st' l hs => (step_flags st st' l hs).2.1)
+    (fun _ hf => hf.2.1) text h
+
+theorem parser_rejects_missing_univariate_tag (text : Str)
+    (h : ∀ l ∈ (lines text).map normLine, startsWith kwUnivariate l = false) :
+    ∃ e, parseTs text = .error e :=
+  parseTs_missing (·.hasUni) kwUnivariate rfl (fun st st' l hs => (step_flags st st' l hs).2.2.1)
+    (fun _ hf => hf.2.2.1) text h
+
+theorem parser_rejects_missing_data_tag (text : Str)
+    (h : ∀ l ∈ (lines text).map normLine, startsWith kwData l = false) :
+    ∃ e, parseTs text = .error e :=
+  parseTs_missing (·.hasData) kwData rfl (fun st st' l hs => (step_flags st st' l hs).2.2.2.2.1)
+    (fun _ hf => hf.2.2.2.2) text h
+
+/-- a case line with a token that is not a number raises `ValueError` -/
+theorem parser_rejects_non_numeric_token (seg t : Str) (hne : strip seg ≠ [])
+    (ht : t ∈ splitOn ',' (strip seg)) (hf : floatOf t = none) : seriesOf seg = .error .value := by
+  simp only [seriesOf, hne, if_false]
+  exact floats_error ht hf
+
+/-- a case line whose number of `:`-separated dimensions differs from the first case's is rejected -/
+theorem parser_rejects_dimension_mismatch (st : St) (line : Str) (n : Nat) (cl : Bool) (hr : Ready st cl)
+    (hn : st.numDims = some n)
+    (h : (splitOn ':' (replaceQ line)).length - (if cl then 1 else 0) ≠ n) :
+    dataLine st line = .error .parse := by
+  have h' := h
+  cases cl <;>
+    simp_all [dataLine, hr.hPN, hr.hTS, hr.hUni, hr.hCL, hr.hData, hr.hts, hr.hcl]
+
+/-! ### bundled loaders: `split=None` = train followed by test -/
+
+/-- column by column, `_load_dataset(name, None, …)` returns the training instances followed by the test
+instances, labels likewise; `train`/`test` return the respective file's panel.  (The single-frame form
+carries the same columns plus the label column: `toFrame`.) -/
+theorem load_none_eq_train_append_test (tr te : Panel) (a b : List Str)
+    (ha : tr.labels = some a) (hb : te.labels = some b) :
+    (loadSplit .none tr te).dims = List.zipWith (· ++ ·) tr.dims te.dims ∧
+    (loadSplit .none tr te).labels = some (a ++ b) ∧
+    loadSplit .train tr te = tr ∧ loadSplit .test tr te = te ∧
+    (∀ sp, toFrame (loadSplit sp tr te) = ((loadSplit sp tr te).dims, (loadSplit sp tr te).labels)) := by
+  refine ⟨?_, by simp [loadSplit, ha, hb], rfl, rfl, fun _ => rfl⟩
+  simp only [loadSplit]
+  generalize tr.dims = x
+  generalize te.dims = y
+  induction x generalizing y with
+  | nil => cases y <;> rfl
+  | cons p ps ih =>
+    cases y with
+    | nil => rfl
+    | cons q qs => simp [concatDims, ih]
+
+/-! ### non-vacuity: concrete inputs meeting the hypotheses -/
+
+/-- writer options with a wrapped comment, `@equalLength`, `@seriesLength` and two class labels -/
+def exOpts : WOpts :=
+  { problemName := "My Problem".toList, classLabel := ["a".toList, "B".toList], equalLength := true,
+    seriesLength := 3, seriesLengthStr := "3".toList,
+    commentLines := ["# first line".toList, "second line".toList] }
+
+/-- the tokens pandas prints for `[1.5, -2.25, 10.0]` and `[1e-06, 123456.789, 3.0]` -/
+def exPanel : List (List Str) :=
+  [[" 1.50".toList, "-2.25".toList, "10.00".toList],
+   ["     0.000001".toList, "123456.789000".toList, "     3.000000".toList]]
+
+def exVals : List Str := ["a".toList, "B".toList]
+
+theorem exOpts_valid : ValidOpts exOpts :=
+  { ts := rfl, uni := rfl, name := by decide, nameNl := by decide, slNl := by decide,
+    comNl := by decide,
+    comHash := by
+      intro c cs h
+      have h' : ["# first line".toList, "second line".toList] = c :: cs := h
+      injection h' with h1 _
+      exact ⟨" first line".toList, by rw [← h1]; rfl⟩
+    eqsl := by decide, clNl := by decide }
+
+theorem validTok_of_decide (t : Str) (h1 : ',' ∉ t) (h2 : ':' ∉ t) (h3 : '?' ∉ t) (h4 : '\n' ∉ t)
+    (h5 : (floatOf t).isSome = true) : ValidTok t := ⟨h1, h2, h3, h4, h5⟩
+
+theorem exPanel_valid : ∀ s ∈ exPanel, ValidSeries s := by
+  intro s hs
+  simp only [exPanel, List.mem_cons, List.not_mem_nil, or_false] at hs
+  rcases hs with rfl | rfl
+  · refine ⟨by simp, ?_⟩
+    intro t ht
+    simp only [List.mem_cons, List.not_mem_nil, or_false] at ht
+    rcases ht with rfl | rfl | rfl <;>
+      exact validTok_of_decide _ (by decide) (by decide) (by decide) (by decide) (by decide)
+  · refine ⟨by simp, ?_⟩
+    intro t ht
+    simp only [List.mem_cons, List.not_mem_nil, or_false] at ht
+    rcases ht with rfl | rfl | rfl <;>
+      exact validTok_of_decide _ (by decide) (by decide) (by decide) (by decide) (by decide)
+
+theorem exVals_valid : ∀ l ∈ exVals, ValidLabel l := by
+  intro l hl
+  simp only [exVals, List.mem_cons, List.not_mem_nil, or_false] at hl
+  rcases hl with rfl | rfl <;> exact ⟨by decide, by decide, by decide⟩
+
+/-- the hypotheses of `parse_write_roundtrip_partial` are met by a concrete, non-trivial input … -/
+example : (write exOpts exPanel exVals).bind parseTs
+    = .ok ⟨[exPanel.map (·.map tokVal)], some ["a".toList, "b".toList]⟩ :=
+  parse_write_roundtrip_partial exOpts exPanel exVals exOpts_valid (by decide) (by decide) (by decide) rfl
+    exPanel_valid exVals_valid
+
+/-- … and of the label-free theorems -/
+example : (write { exOpts with classLabel := [] } exPanel []).bind parseTs = .error .parse :=
+  roundtrip_without_labels_is_rejected _ exPanel
+    { exOpts_valid with clNl := by decide } rfl (by decide) exPanel_valid
+
+example : (writeFixed { exOpts with classLabel := [] } exPanel []).bind parseTs
+    = .ok ⟨[exPanel.map (·.map tokVal)], none⟩ :=
+  parse_writeFixed_roundtrip_nolabels _ exPanel
+    { exOpts_valid with clNl := by decide } rfl (by decide) exPanel_valid
+
+/-- the missing-tag theorem applies to the writer's label-free output -/
+example : ∃ e, parseTs ("@problemName p\n@timeStamps false\n@univariate true\n@class_label false\n@data\n1,2\n".toList)
+    = .error e :=
+  parser_rejects_missing_classlabel_tag _ (by decide)
+
+/-- a line with the wrong number of dimensions / a non-number -/
+example : seriesOf "1,x,3".toList = .error .value :=
+  parser_rejects_non_numeric_token _ "x".toList (by decide) (by decide) (by decide)
+
 end SkVerif.C18
